@@ -113,9 +113,12 @@ class Check:
             if n > allow:
                 for det in dets[allow:] if allow else dets:
                     violations.append((key, det, n, allow))
+        known_sites = []
         for key, (cnt, what) in known.items():
             if key in bykey:
                 known_lines.append("KNOWN-FINDING: property=%s %s — %s" % (self.prop, key, what))
+                known_sites.append({"key": key, "where": sorted({str(d.get("where")) for d in bykey[key]})})
+        self.cov["known_finding_sites"] = known_sites
         stale_known = [k for k in known if k not in bykey]
         stale_rev = [k for k in reviewed if k not in bykey]
         for rule, what, det in self.hard:
